@@ -215,6 +215,20 @@ theorem C13_sort_independent_view (srtR : List RV → List RV) (srtE : List (Lis
     (fun a ha b hb => entryKeyCmp_tie (hve a ((hE _).1.subset ha)) (hve b ((hE _).1.subset hb)))
     ((hE _).1.trans (List.mergeSort_perm _ _).symm) (hE _).2 (sortEntries_sorted f.view)
 
+/-- **C13, sort uniqueness under the sort keys of the code** (`cmp` THEN printed text): every sorted
+    permutation of a list of alternatives prints like the one `List.mergeSort` returns, and so does
+    every sorted permutation of a list of entries — for arbitrary values, valid or not: elements that
+    tie under the key are textually identical. -/
+theorem C13_sort_unique :
+    (∀ e e' : List RV, e'.Perm e → e'.Pairwise (fun a b => leOf relKeyCmp a b = true) →
+        e'.map showRelation = (sortRels e).map showRelation)
+    ∧ (∀ V V' : List (List RV), V'.Perm V → V'.Pairwise (fun a b => leOf entryKeyCmp a b = true) →
+        V'.map entryText = (V.mergeSort (leOf entryKeyCmp)).map entryText) :=
+  ⟨fun e e' hp hs => sorted_unique relKeyCmp_pre showRelation e e'
+      (fun a _ b _ h => strCmp_eq (then_eq_right h)) hp hs,
+    fun V V' hp hs => sorted_unique entryKeyCmp_pre entryText V V'
+      (fun a _ b _ h => strCmp_eq (then_eq_right h)) hp hs⟩
+
 /-! ## non-vacuity -/
 
 /-- the contract is met by `List.mergeSort`, with which `relationsWrapS` is the model itself … -/
@@ -296,6 +310,9 @@ theorem sortSpec_insertionSort {α : Type} : SortSpec (@insertionSort α) :=
 example : ∃ out, relationsWrapS insertionSort ex.tree = .ok out ∧ out.text = (outTree ex).text :=
   let ⟨o, h1, h2, _⟩ := C13_sort_independent insertionSort sortSpec_insertionSort ex ex_wf
   ⟨o, h1, h2⟩
+
+example : (insertionSort relKeyCmp (ex.view[0]!)).map showRelation = (sortRels (ex.view[0]!)).map showRelation :=
+  C13_sort_unique.1 _ _ (insertionSort_perm _ _) (insertionSort_sorted _ _ (PreCmpOn.of_pre relKeyCmp_pre _))
 
 example : insertionSort entryKeyCmp (ex.view.map (insertionSort relKeyCmp)) = outView ex :=
   C13_sort_independent_view _ _
